@@ -382,7 +382,15 @@ impl Run<'_> {
                         cov.bump("skipped_action");
                         continue;
                     }
-                    if self.cands.iter().any(|m| m.g.reqs.get(&key).is_some_and(|r| r.legacy)) {
+                    if self.cands.iter().any(|m| m.g.reqs.get(&key).is_some_and(|r| r.legacy && r.arity == Arity::Many) && !m.outstanding().iter().any(|o| o.key == key && o.droppable)) {
+                        // an old-API stream whose consumer is waiting on it is never told about the drop
+                        // (S10): such a drop is not part of these scripts (a shrunk script could ask for it)
+                        cov.bump("skipped_action");
+                        continue;
+                    }
+                    if self.cands.iter().any(|m| m.g.reqs.get(&key).is_some_and(|r| r.legacy && r.arity == Arity::Many)) {
+                        cov.bump("fault:drop_legacy_stream_consumer_busy");
+                    } else if self.cands.iter().any(|m| m.g.reqs.get(&key).is_some_and(|r| r.legacy)) {
                         self.legacy_dropped = true;
                         cov.bump("fault:drop_legacy_request");
                     }
